@@ -1,7 +1,7 @@
 #!/bin/sh
 # run_on_patch.sh <patch.diff> <Cxx> [tier] : run ./check Cxx against a scratch worktree of /repo with
 # the patch applied (FCAPY_REPO), so that concurrent work on /repo is not disturbed.
-P="$1"; ID="$2"; TIER="${3:-quick}"; WT="/tmp/runpatch_$$"
+P="$(readlink -f "$1")"; ID="$2"; TIER="${3:-quick}"; WT="/tmp/runpatch_$$"
 git -C /repo worktree add -q --detach "$WT" HEAD || exit 2
 git -C "$WT" apply "$P" || { echo "patch does not apply"; git -C /repo worktree remove --force "$WT"; exit 2; }
 cd /verif && FCAPY_REPO="$WT" ./check "$ID" --tier "$TIER"; rc=$?
